@@ -155,10 +155,14 @@ func verifDownload(allowDrop, symbolicBackoff bool) {
 // disconnects before any byte).
 func VerifDownloadCleanFailures() { verifDownload(false, false) }
 
-// VerifPollDownloadBackoffStops: the same through Poll with a backoff that may
-// give up at any 202 answer.
+// VerifPollDownloadBackoffStops: the clean failure kinds through Poll with a
+// backoff that may give up at any 202 answer. (Mid-transfer drops need the
+// partial-write guard that lives in clusterClient.DownloadBlob's own request
+// closure, so they are only meaningful through DownloadBlob: see the harness
+// below.)
 func VerifPollDownloadBackoffStops() { verifDownload(false, true) }
 
 // VerifFindingDownloadMidTransferDrop: additionally an origin may drop the
-// connection after k >= 1 body bytes (see FINDINGS.md).
+// connection after k >= 1 body bytes (see FINDINGS.md; fixed in /repo, kept as
+// the full-quantifier regression check).
 func VerifFindingDownloadMidTransferDrop() { verifDownload(true, false) }
